@@ -38,7 +38,12 @@ META = {
                    "ASSUME NoPrevMatch (auto_select off, or a max_code_length set): for auto_select schemas without a code-length bound "
                    "Speller::AutoSelectPreviousMatch pushes back a copied segment without comparing positions; the model follows it and "
                    "agrees with the code (schemas vs_auto / vs_autof) including the whole segment list, and the geometric invariant is monitored on the "
-                   "implementation's own segment list for every schema (session_common.seg_geometry), but that the copy fits is not proved. The recursion of "
+                   "implementation's own segment list for every schema (session_common.seg_geometry). The hypothesis cannot be dropped: "
+                   "C01.geometry_fails_prev_match_punct / _raw exhibit schemas and keys (auto_select, no max_code_length, a punctuation key with "
+                   "alternatives, then a letter without candidates) on which the copy does NOT fit — the punctuation segment is there twice; librime "
+                   "does the same (schemas vs_autop / vs_autopx, where the monitor checks the bounds only). Proved for every schema: "
+                   "C01.find_earlier_match_geometry, C01.speller_key_geometry_aligned (the reuse branch keeps the invariant whenever it pushes the "
+                   "saved segment back where the popped one started), C01.prev_match_same_start_aligned (comparing the two starts would suffice). The recursion of "
                    "FindEarlierMatch is modelled with fuel |input|+1; that the fuel is never what stops it is not proved. The key binder's re-entrant "
                    "ProcessKey is modelled WITHOUT fuel (the redirecting_ flag makes the nested chain the chain minus the binder: "
                    "C02.keybinder_nested_chain); the geometric invariant is proved through it (C01.geometry_reachable_keybinder) and "
